@@ -125,12 +125,18 @@ def main():
 
     # =================================================================== GenApi.v
     v = ['(* generated by tools/gen_api.py from the translator\'s function table — do not edit *)',
-         'Require Import BMA.lib.Base BMA.gen.GenTypes BMA.gen.GenPure BMA.lib.Prog BMA.gen.GenProg BMA.gen.GenMeta BMA.lib.Encode.',
+         'Require Import BMA.lib.Base BMA.lib.Reflect BMA.gen.GenTypes BMA.gen.GenPure BMA.lib.Prog BMA.gen.GenProg BMA.gen.GenMeta BMA.lib.Encode.',
          'Open Scope N_scope.', '']
     flat_enums = [n for n, c in enums.items() if all(not p for _, p in c)]
     for n in flat_enums:
         v.append('Definition enc_%s (x : %s) : N := match x with %s end.' % (
             n, n, ' | '.join('%s => %d' % (c, i) for i, (c, _) in enumerate(enums[n]))))
+    v.append('')
+    v.append('(* decidable equality of the enumerations, for kernel evaluation of enum-valued statements *)')
+    for n in flat_enums:
+        v.append('Lemma enc_%s_inj (a b : %s) : N.eqb (enc_%s a) (enc_%s b) = true -> a = b.' % (n, n, n, n))
+        v.append('Proof. destruct a, b; intro H; try reflexivity; discriminate H. Qed.')
+        v.append('#[export] Instance BEq_%s : BEq %s := {| beq := fun a b => N.eqb (enc_%s a) (enc_%s b); beq_eq := enc_%s_inj |}.' % (n, n, n, n, n))
     v.append('')
     for b in builders:
         bn, cfg = b['name'], b['config']
@@ -235,6 +241,7 @@ def main():
 
     # =================================================================== api.json
     cat = {'plain': [f['method'] for f in plain],
+           'plain_ret': {f['method']: {'type': f['ret'], 'accessors': [[a['method'], a['ret']] for a in accessors(f['ret'])]} for f in plain},
            'builders': [{'name': b['name'], 'config': b['config'], 'makers': b['makers'],
                          'setters': [{'method': s['method'], 'coq': 'S_' + s['name'], 'args': s['args']} for s in b['setters']]}
                         for b in builders],
